@@ -50,7 +50,7 @@ def cases(chk):
             sid[0] += 1
             return sid[0]
         yield "preempt", {"work": [[fresh2() for _i in range(r.randint(1, 3))] for _t in range(nt)], "seed": r.randrange(1 << 30), "prob": r.choice([0.05, 0.2, 0.5]),
-                          "entry": r.choice(["top", "coder", "coder"])}
+                          "entry": r.choice(["top", "coder", "coder"]), "inbound": r.choice([0, 2, 3])}
     # senders stalled inside their send while the connection is lost and a new login completes
     for _ in range(chk.scale(120, 3000)):
         nt = r.randint(1, 3)
@@ -76,7 +76,7 @@ def node_for(sid):
     return ProtocolTreeNode("iq", {"id": "s%d" % sid, "type": "get", "xmlns": "w:p"}, [ProtocolTreeNode("ping", data=b"x" * (sid % 7))])
 
 
-def execute(work, choose, preempt=None, entry="top"):
+def execute(work, choose, preempt=None, entry="top", inbound=0):
     """run the work with real threads; returns (coop, bottom writes, locks of interest).  entry="coder": the threads call the coder layer's
     send directly, as YowStack.send does on a stack whose topmost layer is the coder (no layer lock above the encoder)"""
     del coop.LOCKS[:]
@@ -91,6 +91,19 @@ def execute(work, choose, preempt=None, entry="top"):
             for sid in stanzas:
                 top.send(node_for(sid))
         c.spawn(body)
+    if inbound:
+        # the connection's reader thread: inbound frames of other lengths come up through the same layers while the senders are at work
+        from yowsup.layers.coder.encoder import WriteEncoder
+        from yowsup.layers.coder.tokendictionary import TokenDictionary
+        from yowsup.structs import ProtocolTreeNode
+
+        def reader():
+            for k in range(inbound):
+                node = ProtocolTreeNode("iq", {"id": "in%d" % k, "type": "result"}, [ProtocolTreeNode("x", data=b"y" * (40 + 37 * k))])
+                body_ = b"\x01" + struct.pack(">I", k) + bytes(bytearray(WriteEncoder(TokenDictionary()).protocolTreeNodeToBytes(node)))
+                coop.point()
+                bottom.receive(struct.pack(">I", len(body_))[1:] + body_)
+        c.spawn(reader)
     err = None
     try:
         c.run(choose)
@@ -442,7 +455,9 @@ def run_case(chk, stream, case):
         return run_dispatcher(chk, case)
     if stream == "preempt":
         r = random.Random(case["seed"])
-        c, writes, L, err = execute(case["work"], coop.chooser(r), preempt=(case["prob"], random.Random(case["seed"] ^ 0x5bd1e995)), entry=case.get("entry", "top"))
+        c, writes, L, err = execute(case["work"], coop.chooser(r), preempt=(case["prob"], random.Random(case["seed"] ^ 0x5bd1e995)), entry=case.get("entry", "top"),
+                                    inbound=case.get("inbound", 0))
+        chk.hit("preempt:inbound=%d" % min(case.get("inbound", 0), 1))
         chk.hit("preempt:threads=%d" % len(case["work"]), "preempt:p=%s" % case["prob"])
         return check_run(chk, case, c, writes, L, err, "preempt")
     if stream == "random":
